@@ -127,6 +127,11 @@ func (e *Env) lookupConst(pkgPath, name string) (TV, bool) {
 }
 
 func (e *Env) findPkgByName(name string) string {
+	if m := e.fv.P.Specs.Imports[e.pkg]; m != nil {
+		if p, ok := m[name]; ok {
+			return p
+		}
+	}
 	// imports of the current package first
 	if sp := e.fv.P.SSAPkgs[e.pkg]; sp != nil {
 		for _, imp := range sp.Pkg.Imports() {
@@ -442,6 +447,7 @@ func (e *Env) evalBinary(x *Expr) TV {
 		if t == nil {
 			t = types.Typ[types.Int]
 		}
+		e.fv.eqHeap = e.st.heap
 		eq := e.fv.valuesEqualSpec(a.V, b.V, t)
 		if x.Op == "!=" {
 			eq = Not(eq)
@@ -885,6 +891,24 @@ func (e *Env) evalCall(x *Expr) TV {
 		s := oe.eval(x.Args[0]).V.(SliceV)
 		elemSort := e.fv.l.intSort(types.Typ[types.Uint8])
 		return TV{Scalar{Eq(e.st.heap.elemRow(elemSort, 0, s.Arr), e.old.heap.elemRow(elemSort, 0, s.Arr))}, nil}
+	}
+	// uninterpreted specification functions: ufint_*, ufref_*, ufbool_*
+	for pre, srt := range map[string]*Sort{"ufint_": IntSort, "ufref_": RefSort, "ufbool_": BoolSort} {
+		if strings.HasPrefix(x.Name, pre) {
+			var ts []*Term
+			for i := range x.Args {
+				a := arg(i)
+				switch v := a.V.(type) {
+				case Scalar:
+					ts = append(ts, v.T)
+				case IfaceV:
+					ts = append(ts, v.Ref)
+				case SliceV:
+					ts = append(ts, v.Arr, v.Off, v.Len)
+				}
+			}
+			return TV{Scalar{App(sanitize(x.Name), srt, ts...)}, nil}
+		}
 	}
 	// macros
 	name := x.Name
